@@ -10,7 +10,7 @@ from oracles import graph as G
 PID = 'C13'
 
 META = dict(
-    explanation="For every API that accepts random_state - LGANM(...) with (low, high) ranges, LGANM.sample, NormalDistribution.sample, "
+    explanation="For every API that accepts random_state - LGANM(...) with (low, high) ranges, LGANM.sample (also on a model that was itself constructed with a seed), NormalDistribution.sample, "
                 "ANM.sample (library noise: normal / uniform / laplace, with do-, shift- and noise-interventions), dag_avg_deg, dag_full, "
                 "intervention_targets, split_data, add_edges, remove_edges - the same call is executed TWICE inside one path with a "
                 "symbolic seed s >= 0 (0 is a value the solver may pick) and symbolic arguments: the first from an arbitrary state G0 of "
@@ -133,6 +133,26 @@ def h_lganm_sample(ctx):
         return model.sample(n, do_interventions=do, random_state=sd)
     return _pair(ctx, 'lganm_sample', call, dict(W=rows, means=means, variances=variances, target=ti, do_m=dm, do_v=dv, n=n),
                  dict(pattern=[list(r) for r in pat], target=ti))
+
+
+def h_lganm_seeded_model(ctx):
+    """a model CONSTRUCTED with a seed: its later unseeded sample() calls must still differ, and seeded ones be reproducible"""
+    e = ctx.eng
+    lg = ctx.mod('sempler.lganm')
+    p, n = ctx.params['p'], ctx.params['n']
+    rows, pat = I.weighted_dag(ctx)
+    cseed = e.int('constructor_seed')
+    e.assume(cseed >= 0)
+    e.assume(cseed < 2 ** 32)
+    how = ctx.params['how']
+    if how == 'ranges':
+        model = lg.LGANM(np.array(rows, dtype=float), (0, 1), (1, 2), random_state=cseed)
+    else:
+        model = lg.LGANM(np.array(rows, dtype=float), np.zeros(p), np.ones(p), random_state=cseed)
+
+    def call(sd):
+        return model.sample(n, random_state=sd) if sd is not None else model.sample(n)
+    return _pair(ctx, 'lganm_seeded_model', call, dict(W=rows, cseed=cseed, how=how, n=n), dict(pattern=[list(r) for r in pat], how=how))
 
 
 def h_normal_sample(ctx):
@@ -291,6 +311,12 @@ def _real_call(inp):
         t = int(inp['target'])
         do = {t: (fl(inp['do_m']), fl(inp['do_v']))} if t < len(W) else None
         call = lambda sd: [model.sample(max(int(inp['n']), 3), do_interventions=do, random_state=sd)]
+    elif api == 'lganm_seeded_model':
+        W = numpy.array(unj_float(inp['W']), dtype=float)
+        p = len(W)
+        cs = int(unj(inp['cseed'])) % (2 ** 32)
+        model = s.LGANM(W, (0, 1), (1, 2), random_state=cs) if inp['how'] == 'ranges' else s.LGANM(W, numpy.zeros(p), numpy.ones(p), random_state=cs)
+        call = lambda sd: [model.sample(max(int(inp['n']), 3), random_state=sd) if sd is not None else model.sample(max(int(inp['n']), 3))]
     elif api == 'normal_sample':
         mean = numpy.array(unj_float(inp['mean']), dtype=float)
         p = len(mean)
@@ -377,6 +403,7 @@ _REACH_INPUTS = {
     'lganm_init': dict(api='lganm_init', W=[[0, 1], [0, 0]], mlo=0, mhi=1, vlo=1, vhi=2),
     'lganm_sample': dict(api='lganm_sample', W=[[0, 1], [0, 0]], means=[0, 0], variances=[1, 1], target=2, do_m=0, do_v=0, n=3),
     'normal_sample': dict(api='normal_sample', mean=[0, 0], n=3),
+    'lganm_seeded_model': dict(api='lganm_seeded_model', W=[[0, 1], [0, 0]], cseed=0, how='arrays', n=3),
     'anm_sample': dict(api='anm_sample', A=[[0, 1], [0, 0]], kinds=['none', 'none'], noise_params=[[0, 1], [0, 1]], int_params=[[0, 1], [0, 1]], n=3),
     'dag_avg': dict(api='dag_avg', p=4, k=1, w_min=1, w_max=2),
     'dag_full': dict(api='dag_full', p=4, w_min=1, w_max=2),
@@ -408,6 +435,8 @@ def obligations(tier):
     for p in (1, 2, 3):
         add('lganm_sample@p%d' % p, h_lganm_sample, [dict(c, n=n) for c in I.dag_pair_cubes(p, 0) for n in (1, 2)],
             "LGANM.sample(n, do_interventions, random_state=s), %d variables" % p, p * 4)
+    add('lganm_seeded_model@p2', h_lganm_seeded_model, [dict(c, n=1, how=h) for c in I.dag_pair_cubes(2, 0) for h in ('ranges', 'arrays')],
+        "LGANM(..., random_state=c) followed by seeded and by unseeded sample() calls", 5)
     add('normal_sample@p2', h_normal_sample, [dict(p=2, n=n) for n in (1, 2)], "NormalDistribution.sample(n, random_state=s)")
     for p in (1, 2):
         add('anm_sample@p%d' % p, h_anm_sample, [dict(c, n=n) for c in I.dag_pair_cubes(p, 0) for n in (1, 2)],
